@@ -396,8 +396,8 @@ Definition help_exceptions : list string := ["cc-fnonstd"].
 
 Definition help_row_ok (r : row) : Prop :=
   match find (fun p => String.eqb (fst p) (rname r)) help_levels with
-  | Some p => In (rname r) help_exceptions \/ snd p = map (fun v => negb (v =? 0)) (rvals r)
-  | None => forallb (fun v => v =? 0) (rvals r) = true      (* undocumented rows are off at every level *)
+  | Some p => In (rname r) help_exceptions \/ snd p = map (fun v => negb (v =? 0)%Z) (rvals r)
+  | None => forallb (fun v => (v =? 0)%Z) (rvals r) = true      (* undocumented rows are off at every level *)
   end.
 
 Lemma help_agrees_rows : Forall help_row_ok flag_rows.
